@@ -32,6 +32,11 @@ def closure_after(src, fn_header_re, marker):
     return body[j:e]
 caret_m=closure_after(RNG,r'^fn caret<','|parsed| match parsed')
 partial_m=closure_after(RNG,r'^fn partial<','|partial| match partial')
+prim_m=closure_after(RNG,r'^fn primitive<','|parsed| match parsed')
+tilde_m=closure_after(RNG,r'^fn tilde<','|parsed| match parsed')
+hm=re.search(r'^fn hyphen<',RNG,re.M); hob=RNG.index('{',hm.end()-1); hend=match_brace(RNG,hob); hbody=RNG[hob:hend]
+hy_text=hbody[hbody.index('let upper = match upper'):hbody.index('Ok(bounds)')]
+
 out=[]
 out.append(open('/tmp/probe/proto/prelude.rs').read())
 out.append('use vstd::std_specs::convert::*;\n')
@@ -42,7 +47,8 @@ def pubify(t):
     return t
 pred=pubify(strip_derive(item(RNG,r'^enum Predicate'))); bound=pubify(strip_derive(item(RNG,r'^enum Bound \{'))); bset=pubify(strip_derive(item(RNG,r'^struct BoundSet')))
 partial=pubify(strip_derive(item(RNG,r'^struct Partial')))
-out+=[ident,clone_impl('Identifier'),ver,clone_impl('Version'),pred,clone_impl('Predicate'),bound,clone_impl('Bound'),bset,clone_impl('BoundSet'),partial,clone_impl('Partial')]
+opn=pubify(strip_derive(item(RNG,r'^enum Operation')))
+out+=[opn.replace('#[derive(Debug, Copy)]','#[derive(Debug, Copy, Clone, PartialEq, Eq)]'),ident,clone_impl('Identifier'),ver,clone_impl('Version'),pred,clone_impl('Predicate'),bound,clone_impl('Bound'),bset,clone_impl('BoundSet'),partial,clone_impl('Partial')]
 out.append('pub const MAX_SAFE_INTEGER: u64 = 900_719_925_474_099;\n')
 out.append(open('specs_ds.rs').read())
 # From impls: expand macro for u64 (R: macro expansion, pattern param rewrite)
@@ -83,6 +89,9 @@ HINT="""{
  }
     """
 out.append('fn caret_desugar(parsed: Partial) -> (r: Option<BoundSet>)\n'+open('contract_caret.rs').read()+HINT+caret_m+'\n}\n')
+out.append('fn primitive_desugar(parsed: (Operation, Partial)) -> (r: Option<BoundSet>)\n'+open('contract_primitive.rs').read()+HINT+'use Operation::*;\n'+prim_m+'\n}\n')
+out.append('fn tilde_desugar(parsed: (Option<&str>, Partial)) -> (r: Option<BoundSet>)\n'+open('contract_tilde.rs').read()+HINT+tilde_m+'\n}\n')
+out.append('fn hyphen_desugar(lower: Option<Partial>, upper: Partial) -> (r: Option<BoundSet>)\n'+open('contract_hyphen.rs').read()+HINT+hy_text+'\n bounds\n}\n')
 out.append('fn partial_desugar(partial: Partial) -> (r: Option<BoundSet>)\n'+open('contract_partial.rs').read()+HINT+partial_m+'\n}\n')
 out.append('} // verus!\nfn main() {}')
 open('ds.rs','w').write('\n'.join(out))
